@@ -40,7 +40,7 @@ let run records mismatches =
   let eager = ref false and a_start = ref 0 and a_nblocks = ref 0 and bsl = ref 512 in
   let model : C.state option ref = ref None in
   let invs = ref 0 and steps = ref 0 and exact = ref 0 and refused = ref 0 and failed_ops = ref 0 and cands = ref 0
-  and two_attempts = ref 0 and oscalls = ref 0 and resync = ref 0 in
+  and two_attempts = ref 0 and oscalls = ref 0 and resync = ref 0 and transients = ref 0 in
   let mism fmt = Printf.ksprintf (fun s -> incr mismatches; if !mismatches <= 40 then print_endline ("MISMATCH " ^ s)) fmt in
   let cur = { o = []; calls = []; a = []; segs = []; k = [] } in
   let nfields () = (!a_nblocks + 63) / 64 in
@@ -261,6 +261,7 @@ let run records mismatches =
          let commit = !eager || huge in
          (* every way to cut the attempt list into the attempts of mi_find_page before the forced collect and after it:
             one attempt each for large/huge pages, up to two each for the small and medium size classes *)
+         (* (a fresh segment that the retry of mi_segments_page_alloc left unused is freed again: see go_transient) *)
          let rec cuts k l : C.where_ list list list =     (* l as k consecutive, possibly empty, groups *)
            if k = 1 then [[l]]
            else begin
@@ -280,9 +281,50 @@ let run records mismatches =
              (match try_step (C.OpAlloc (nint n, huge, commit, t1, order, t2)) expect with
               | Ok st' -> if nonempty t2 <> [] then incr two_attempts; Ok st'
               | Error s -> go (if last = "" then s else last) rest) in
+         (* TRANSIENT segments.  mi_segments_page_alloc frees the segment it obtained from mi_segment_reclaim_or_alloc when
+            its retry left it without a page (`if (segment->used == 0) mi_segment_free(...)`).  Such a segment is not in
+            the dump, and it made no OS call when its arena block was already committed.  It can only have been obtained
+            right after a refused span commit that is followed by another span attempt of the same mi_find_page attempt.
+            When no candidate explains the dump, every assignment of free arena blocks (committed ones first, distinct
+            within one attempt) to these gaps is tried; an illegal choice is rejected by the model. *)
+         let free_blocks =
+           let a = m.C.st_arena in
+           let fr = L.filter (fun b -> not (a.C.a_inuse (nint b))) (L.init !a_nblocks (fun i -> i)) in
+           L.filter (fun b -> a.C.a_committed (nint b)) fr @ L.filter (fun b -> not (a.C.a_committed (nint b))) fr in
+         let rec expand_group (used : int list) (g : C.where_ list) : C.where_ list list =
+           match g with
+           | (C.WSpan _ as w1) :: ((C.WSpan _ :: _) as rest) ->
+             let some = L.concat (L.map (fun b -> if L.mem b used then [] else
+                                            L.map (fun t -> C.WNewArena (nint b) :: t) (expand_group (b :: used) rest)) free_blocks) in
+             L.map (fun t -> w1 :: t) (some @ expand_group used rest)
+           | w :: rest -> L.map (fun t -> w :: t) (expand_group used rest)
+           | [] -> [[]] in
+         let expand_groups (gs : C.where_ list list) : C.where_ list list list =
+           L.fold_right (fun g acc ->
+               let used = L.filter_map (function C.WNewArena b -> Some (int_of_n b) | _ -> None) g in
+               let eg = expand_group used g in
+               L.concat (L.map (fun g' -> L.map (fun r -> g' :: r) acc) eg)) gs [[]] in
+         let budget = ref 6000 in
+         let rec go_transient last = function
+           | [] -> Error last
+           | (t1, t2) :: rest ->
+             let k1 = L.length t1 in
+             let rec take k l = if k = 0 then ([], l) else (match l with x :: r -> let (a, b) = take (k - 1) r in (x :: a, b) | [] -> ([], [])) in
+             let variants = L.filter (fun gs -> gs <> t1 @ t2) (expand_groups (t1 @ t2)) in
+             let rec tryv = function
+               | [] -> None
+               | gs :: more ->
+                 if !budget <= 0 then None else begin
+                   decr budget; incr cands;
+                   let (u1, u2) = take k1 gs in
+                   match try_step (C.OpAlloc (nint n, huge, commit, u1, order, u2)) expect with
+                   | Ok st' -> incr transients; if nonempty u2 <> [] then incr two_attempts; Some st'
+                   | Error _ -> tryv more end in
+             (match tryv variants with Some st' -> Ok st' | None -> if !budget <= 0 then Error last else go_transient last rest) in
+         let go_all cs = match go "" cs with Ok s -> Ok s | Error s -> if huge then Error s else go_transient s cs in
          let show_w = function C.WSpan (b, l, _, _) -> Printf.sprintf "span %s+%s" (string_of_n b) (string_of_n l)
                              | C.WNewArena b -> "new-segment@block " ^ string_of_n b | C.WNewOs _ -> "new-os-segment" in
-         finish (match go "" candidates with Ok s -> Ok s
+         finish (match go_all candidates with Ok s -> Ok s
                                            | Error s -> Error (Printf.sprintf "%s [attempts: %s; answers: %s]" s (String.concat ", " (L.map show_w final_ws))
                                                                  (String.concat "" (L.map (fun b -> if b then "1" else "0") answers))))
            (Printf.sprintf "mi_malloc needing a fresh %s page of %d slices, result %s" (if huge then "huge" else "normal") n (if ok then "ok" else "NULL"))
@@ -313,7 +355,7 @@ let run records mismatches =
       | _ -> ()
     done
   with End_of_file -> ());
-  Printf.printf "STATS commit invariants=%d steps=%d steps_exact=%d resynced=%d refused_mprotect=%d failed_api_calls=%d candidates=%d two_attempts=%d oscalls=%d\n"
-    !invs !steps !exact !resync !refused !failed_ops !cands !two_attempts !oscalls
+  Printf.printf "STATS commit invariants=%d steps=%d steps_exact=%d resynced=%d refused_mprotect=%d failed_api_calls=%d candidates=%d two_attempts=%d oscalls=%d transient_segments=%d\n"
+    !invs !steps !exact !resync !refused !failed_ops !cands !two_attempts !oscalls !transients
 
 let () = Modes.register "commit" run
